@@ -77,6 +77,8 @@ func ProfileFor(prop, tier string, r *Rng) *Profile {
 	case "C14":
 		p.SweepEvery = 5
 		scale(2, KSweep, KNewFilter, KNext, KOpenQuery)
+		// component types registered after typed mappers, filters and observers were created
+		p.W[KRegistry] = 1.2
 	case "C15":
 		scale(8, KShrink)
 		scale(2, KRegister, KSweep, KSetRel, KRemoveEntity)
